@@ -202,6 +202,47 @@ def refusals():
     return res
 
 
+def slow_env_rows():
+    """explicitly enabled contracts behave the same whatever ICONTRACT_SLOW and the interpreter mode are"""
+    res = {}
+
+    @icontract.require(lambda xs, ys: all(x > ys[0] for x in xs) and len(xs) > 0, enabled=True)
+    def f(xs, ys):
+        return xs
+
+    try:
+        f([], [])
+        res["unevaluated-comprehension-part"] = "returned"
+    except icontract.ViolationError:
+        res["unevaluated-comprehension-part"] = "violation"
+    except BaseException as e:  # noqa: B902
+        res["unevaluated-comprehension-part"] = type(e).__name__
+
+    def x_ok(self):
+        return self.x >= 0
+
+    @icontract.invariant(x_ok, enabled=True)
+    class A:
+        def __init__(self):
+            self.x = 1
+
+        def m(self):
+            return 1
+
+    a = A()
+    try:
+        a.x = -1
+        res["assignment-with-default-check_on"] = "accepted"
+    except icontract.ViolationError:
+        res["assignment-with-default-check_on"] = "violation"
+    try:
+        a.m()
+        res["call-after-assignment"] = "returned"
+    except icontract.ViolationError:
+        res["call-after-assignment"] = "violation"
+    return res
+
+
 def broken_before_call():
     """explicitly enabled invariants; the object is broken without going through a checked operation; the next public
     operation must be stopped BEFORE its body in every interpreter mode"""
@@ -304,6 +345,7 @@ def broken_before_call():
         res = type(e).__name__
     out["shared_invariant_object"] = [res, list(ran)]
     out["refusals"] = [refusals(), []]
+    out["slow_env"] = [slow_env_rows(), []]
     # the text of a violation of an explicitly enabled contract whose condition is a documented named function
     texts = []
     try:
